@@ -137,7 +137,8 @@ def run_task(args):
         else:
             from hypothesis import given, settings, seed as hseed, HealthCheck, Phase
             phases = [Phase.generate] if target is None else [Phase.generate, Phase.shrink]
-            strat = sub.strategy(tier)
+            strat = (sub.strategy(tier, shard, nshards) if getattr(sub.strategy, "sharded", False)
+                     else sub.strategy(tier))
 
             @hseed(seed * 1000 + shard)
             @settings(max_examples=n, deadline=None, database=None, derandomize=False,
@@ -333,7 +334,7 @@ def main(argv=None):
     sys.stdout.flush()
 
     # 3. generate
-    subs = [s for s in mod.SUBS if not a.sub or s.name in a.sub]
+    subs = [s for s in mod.SUBS if (not a.sub or s.name in a.sub) and a.tier in s.tiers]
     tasks = []
     for s in subs:
         total = max(1, int(s.budget[a.tier] * a.scale))
